@@ -12,7 +12,7 @@ EXPLANATION = (
     "in both loops socket.timeout becomes Pyro's TimeoutError and socket.error becomes ConnectionClosedError unless the errno "
     "is in ERRNO_RETRIES, in which case the loop continues; in send_data the unsent remainder is sliced off right after a "
     "successful send, by the count that send returned, and the loop runs while data remains; ERRNO_RETRIES contains only the "
-    "retryable errno family. Not decided: exact bytes/order under scripts of partial reads, timing, MSG_WAITALL semantics."
+    "retryable errno family; the library's own errors are not OSErrors; SocketConnection.recv/send delegate exactly. Not decided: exact bytes/order under scripts of partial reads, timing, MSG_WAITALL semantics."
 )
 
 RETRYABLE = {"EINTR", "EAGAIN", "EWOULDBLOCK", "EINPROGRESS", "WSAEINTR", "WSAEWOULDBLOCK", "WSAEINPROGRESS"}
